@@ -29,7 +29,13 @@ def make_adapters(case, fresh_names=True):
     from cutadapt.adapters import PrefixAdapter, SuffixAdapter
 
     cls = PrefixAdapter if case["prefix"] else SuffixAdapter
-    return [cls(s, max_errors=case["e"], indels=case["indels"], name=f"a{i}") for i, s in enumerate(case["adapters"])]
+    return [cls(s, max_errors=case["e"], indels=indel_of(case, i), name=f"a{i}") for i, s in enumerate(case["adapters"])]
+
+
+def indel_of(case, i):
+    """indels is one switch for all adapters, or (mixed sets: some adapters given with ;noindels) one per adapter."""
+    v = case["indels"]
+    return v[i] if isinstance(v, list) else v
 
 
 def dist_to_affix(adapter_seq, read_upper, prefix, indels, L):
@@ -46,8 +52,10 @@ def check_index(case, ctx):
 
     import logging
     logging.getLogger().setLevel(logging.ERROR)
-    prefix, indels, read = case["prefix"], case["indels"], case["read"]
+    prefix, read = case["prefix"], case["read"]
     seqs = case["adapters"]
+    ind = [indel_of(case, i) for i in range(len(seqs))]
+    indels = "mixed" if len(set(ind)) > 1 else ind[0]
     ads = make_adapters(case)
     ks = [int(len(a) * a.max_error_rate) for a in ads]
     if any(k > 3 for k in ks):
@@ -57,9 +65,9 @@ def check_index(case, ctx):
     n = len(read)
     ru = read.upper()
     m = idx.match_to(read)
-    where = (f"{'5' if prefix else '3'}' anchored adapters {seqs} e={case['e']} indels={indels} read={read!r}")
+    where = (f"{'5' if prefix else '3'}' anchored adapters {seqs} e={case['e']} indels={ind} read={read!r}")
     ctx.label("prefix" if prefix else "suffix")
-    ctx.label("indels" if indels else "no-indels")
+    ctx.label("indels:mixed" if indels == "mixed" else "indels" if indels else "no-indels")
     if n < max(len(s) for s in seqs):
         ctx.label("read-shorter-than-longest")
     nfree = set(ru) <= set("ACGT")
@@ -80,7 +88,7 @@ def check_index(case, ctx):
             raise Violation(f"indexed match is not anchored: {tup} for {where}", observed=tup)
         if (m.astart, m.astop) != (0, len(a.sequence)):
             raise Violation(f"indexed match does not cover the whole adapter: {tup} for {where}", observed=tup)
-        d = dist_to_affix(a.sequence, ru, prefix, indels, m.rstop - m.rstart)
+        d = dist_to_affix(a.sequence, ru, prefix, ind[i], m.rstop - m.rstart)
         if d is None or d != m.errors:
             raise Violation(f"indexed match reports {m.errors} errors, true distance of the removed "
                             f"{'prefix' if prefix else 'suffix'} to {a.sequence} is {d}: {tup} for {where}",
@@ -94,8 +102,8 @@ def check_index(case, ctx):
         best = []
         for i, s in enumerate(seqs):
             dmin = None
-            for L in (range(0, n + 1) if indels else ([len(s)] if len(s) <= n else [])):
-                d = dist_to_affix(s, ru, prefix, indels, L)
+            for L in (range(0, n + 1) if ind[i] else ([len(s)] if len(s) <= n else [])):
+                d = dist_to_affix(s, ru, prefix, ind[i], L)
                 if d is not None and (dmin is None or d < dmin):
                     dmin = d
             best.append(dmin)
@@ -119,7 +127,7 @@ def check_index(case, ctx):
                     perms = perms[:: len(perms) // 24][:24]
                 ref = None
                 for perm in perms:
-                    pc = dict(case, adapters=[seqs[j] for j in perm])
+                    pc = dict(case, adapters=[seqs[j] for j in perm], indels=False)
                     pa = make_adapters(pc)
                     for a_, j in zip(pa, perm):
                         a_.name = f"a{j}"
@@ -171,6 +179,10 @@ def index_case(draw):
         ads = list(dict.fromkeys(ads))
         while len(ads) < 2:
             ads.append(ads[0][::-1] + "A")
+    if draw(st.integers(0, 3)) == 0:
+        # a mixed set: some adapters carry ;noindels
+        indels = [draw(st.booleans()) for _ in ads]
+    any_indels = any(indels) if isinstance(indels, list) else indels
     e = draw(st.sampled_from([0, 1, 2, 3, 0.1, 0.15, 0.2, 0.25, 0.34]))
     if e >= 1:
         e = min(e, min(len(s) for s in ads) - 1) or 0
@@ -180,7 +192,7 @@ def index_case(draw):
     for _ in range(draw(st.integers(0, 3))):
         if not mid:
             break
-        op = draw(st.sampled_from("sssid" if indels else "s"))
+        op = draw(st.sampled_from("sssid" if any_indels else "s"))
         p = draw(st.integers(0, len(mid) - 1))
         if op == "s":
             mid[p] = draw(st.sampled_from("ACGT"))
@@ -223,10 +235,12 @@ def check_cli(case, ctx):
     read of the indexed run is re-validated from its --info-file row."""
     prefix, indels = case["prefix"], case["indels"]
     args = []
+    mixed = isinstance(indels, list)
     for i, s in enumerate(case["adapters"]):
-        args += ["-g", f"a{i}=^{s}"] if prefix else ["-a", f"a{i}={s}$"]
+        p = ";noindels" if mixed and not indels[i] else ""
+        args += ["-g", f"a{i}=^{s}{p}"] if prefix else ["-a", f"a{i}={s}${p}"]
     args += ["-e", str(case["e"])]
-    if not indels:
+    if not mixed and not indels:
         args.append("--no-indels")
     recs = [(f"r{i}", s, "I" * len(s)) for i, s in enumerate(case["reads"])]
     r = cli.run(args + ["--info-file", "info.tsv", "-o", "out.fastq", "in.fastq"], {"in.fastq": cli.fastq(recs)})
@@ -245,11 +259,12 @@ def check_cli(case, ctx):
             continue
         nt = True
         errors, rstart, rstop = int(row[1]), int(row[2]), int(row[3])
-        a = ads[int(row[7][1:])]
+        ai = int(row[7][1:])
+        a = ads[ai]
         if not (0 <= rstart <= rstop <= len(s)) or (prefix and rstart != 0) or (not prefix and rstop != len(s)):
             raise Violation(f"CLI (indexed) match not anchored/inside read: {row[:8]} for read {s!r} ({args})",
                             observed=row[:8])
-        d = dist_to_affix(a.sequence, s.upper(), prefix, indels, rstop - rstart)
+        d = dist_to_affix(a.sequence, s.upper(), prefix, indel_of(case, ai), rstop - rstart)
         if d != errors or d > a.max_error_rate * len(a.sequence):
             raise Violation(f"CLI (indexed) match row {row[:8]} for read {s!r}: true distance {d} ({args})",
                             observed=errors, expected=d)
